@@ -2,10 +2,11 @@
 from vlib import common
 
 GO = dict(module="core", pkg="server", pkgname="server",
-          files={"zz_verif_udpenv_test.go": "c07/udpenv_test.go", "zz_verif_c07_test.go": "c07/c07_test.go"},
+          files={"zz_verif_udpenv_test.go": "c07/udpenv_test.go", "zz_verif_c07_test.go": "c07/c07_test.go",
+                 "zz_verif_c07s_test.go": "c07/c07_stress_test.go"},
           run="TestVerifC07")
 PARAMS_NAME = "ParamsC07"
-HEADER = "From Hy Require Import lib.Harness model.C07_UDPSessions corr.C07_Corr.\nFrom Coq Require Import NArith.\nLocal Open Scope N_scope.\n"
+HEADER = "From Hy Require Import lib.Harness model.C07_UDPSessions corr.C07_Corr.\nFrom Coq Require Import NArith List.\nImport ListNotations.\nLocal Open Scope N_scope.\n"
 RULE = ("seeded generator: histories of 10-70 operations on udpSessionManager.Run inside a testing/synctest bubble (fake clock): client "
         "datagrams (complete / never-completed fragment) over <= 6 session ids, scripted reads and read errors on the sessions' sockets, "
         "injected dial / hook / SendMessage / WriteTo failures, a slow event logger (keeps a closed entry in the table for 10 ms), "
@@ -28,6 +29,20 @@ RULE = ("seeded generator: histories of 10-70 operations on udpSessionManager.Ru
         "every datagram ReadFrom returned with a nil error (any length, 0 included) is handed to SendMessage with the owner's session id, the same tag "
         "and the same length before the reply loop reads again, and counts as traffic of the session (a socket with such a read within the timeout "
         "of a sweep is not closed by it). Non-trivial = the history contains an idle expiry, a session id reused on a new socket, or an injected fault. "
+        "STRESS histories (k = stress; real goroutines and the real clock, no bubble): the real Run loop consumes 2000-8000 datagrams, nearly all of "
+        "fresh session ids (kinds drawn per id from a seeded mix: remote refuses -> reply loop ends the session; dial refused; hook refused; "
+        "one reply relayed then refusal; SendMessage failing; a bounded number of sessions that stay and get further datagrams; fragment-only "
+        "entries, some completed later) while 1-3 goroutines call cleanup(true) back to back (many sweeper ticks compressed into a loop, next to "
+        "the manager's own ticker), optionally a Count() caller, varied yielding / pacing / GOMAXPROCS; idle timeout 300-3600 s so that nothing may "
+        "expire; then the connection is lost while the sweeps go on (cleanup(false) overlapping cleanup(true) and the exit functions), then the "
+        "sweepers stop.  Verdict on the implementation alone: every complete datagram of a fresh id calls the hook, logs New, dials and is "
+        "written to that socket as far as its kind allows; no Close(nil) before the loss of the connection unless the latest datagram of the "
+        "id was handed to the receive loop more than the idle timeout earlier; exactly one Close event per session, every socket closed once, "
+        "replies tagged with the owner's id; LIVENESS: a progress watchdog (receive loop, every sweeper, Run's return, the sweepers' return, "
+        "the exit of every goroutine of the manager) - no progress for 20 s of real time while a heartbeat goroutine shows the process is being "
+        "scheduled is a WEDGE, reported with the dump of the manager's goroutines; at the end Count() == 0 and no goroutine of the manager is left. "
+        "The per-id outcome codes are checked against the exhaustively explored outcomes of the one-entry LTS of model/C07_Birth.v.  "
+        "BIRTH probe (k = birth): newUDPSessionEntry's Last lies between clock readings taken around the call (compared with the model's creation action). "
         "Distinct = distinct JSON case.")
 ASSUMPTIONS = [
     "a closed UDPConn returns an error from every later ReadFrom/WriteTo, and ReadFrom blocked on it returns (socket semantics, modelled in the LTS guards)",
@@ -39,6 +54,12 @@ ASSUMPTIONS = [
     "a slow socket Close() is exercised only where no other goroutine can want the entry's connLock while the fake sleeps (a sync.Mutex wait is not a "
     "durable block for testing/synctest): calls made by the receive loop's goroutine after the connection was lost, reply loop parked in ReadFrom, "
     "sleep cut 1 ms before the first tick at which the entry counts as idle; the close takes effect when the sleep is over",
+    "stress histories: a wedge is declared after 20 s of real time without any progress of the manager while a heartbeat goroutine "
+    "(1 ms sleeps) advanced >= 2000 times in that window, or after 150 s whatever the heartbeat says; the feeding phase is cut (not a "
+    "violation) after 45 s; calling cleanup(true) from harness goroutines compresses sweeper ticks (the code's own sweeper calls it once per second)",
+    "model/C07_Birth.v follows ONE entry's life (datagrams handed out after the entry left the table belong to the next entry's life, "
+    "covered by the LTS of C07_UDPSessions.v); its reply-loop read error is always enabled (over-approximation); the m.mutex programs of "
+    "feed / cleanup / exitFunc / Count are transcribed by hand (Locks.code_prog)",
     "the acceptor takes the table delete that ends CloseWithErr at once after the connection loss when the history has no slow logger.Close "
     "(nobody looks an id up any more; closed entries are dropped from cleanup snapshots anyway): a reduction, every reduced run is a run of the LTS",
 ]
@@ -308,7 +329,32 @@ def gen(rng, tier):
         sub = random_sub(rng, k)
         k += 1
         cases.append(sub)
+    cases.append({"k": "birth"})
+    for j in range(5 if tier == "quick" else 40):
+        cases.append(gen_stress(rng, j))
     return cases
+
+
+def gen_stress(rng, j):
+    """one stress history (c07_stress_test.go): the real Run loop against back-to-back sweeps under real concurrency.
+    j = 0, 1 are the two plain shapes (everything refused by the remote / the general mix); the rest is drawn."""
+    #        refuse dialfail hookfail stay echo frag sendfail
+    mixes = [[1, 0, 0, 0, 0, 0, 0], [6, 2, 1, 1, 1, 1, 1], [3, 3, 0, 0, 1, 0, 1], [8, 0, 0, 1, 2, 1, 0], [2, 1, 1, 2, 2, 2, 2], [0, 1, 0, 0, 0, 0, 0]]
+    if j == 0:
+        mix, sweepers, again, maxstay = mixes[0], 1, 0, 0
+    elif j == 1:
+        mix, sweepers, again, maxstay = mixes[1], 2, 50, 40
+    else:
+        mix = mixes[j] if j < 5 else rng.choice(mixes[:5] if j % 8 else mixes)
+        sweepers = rng.choice([1, 1, 2, 3])
+        again = rng.choice([0, 20, 50, 200])
+        maxstay = rng.choice([0, 8, 40, 200])
+    return {"k": "stress", "n": rng.choice([2000, 3000, 4000, 6000, 8000]), "timeout": rng.choice([600000, 600000, 300000, 3600000]),
+            "seed": rng.getrandbits(48), "base": rng.choice([1, 1000, 4294965000, rng.getrandbits(32)]),
+            "sweepers": sweepers, "yield": rng.choice([0, 0, 1, 7]), "pace": rng.choice([0, 0, 1, 16]),
+            "napevery": rng.choice([0, 0, 500, 97]), "napus": rng.choice([1, 50, 300]),
+            "mix": mix, "maxstay": maxstay, "again": again, "procs": rng.choice([0, 0, 0, 2, 4]),
+            "counters": rng.choice([0, 0, 1]), "capms": 45000}
 
 
 def random_sub(rng, k):
@@ -378,6 +424,21 @@ def events(o):
 
 
 def to_coq(c, o):
+    b = lambda x: "true" if x else "false"
+    if c.get("k") == "birth":
+        if "last" not in o:
+            return None
+        l = lambda xs: "[" + ";".join(str(int(x)) for x in xs) + "]"
+        return "CBirth %s %s %s" % (l(o["lo"]), l(o["last"]), l(o["hi"]))
+    if c.get("k") == "stress":
+        if o.get("skipped") or "hist" not in o:
+            return None
+        count = o.get("count", -1)
+        nil = o.get("min_nil_age_us", -1)
+        # (rounded up to whole ms: age > timeout  <->  ceil(age) > timeout for a timeout in whole ms)
+        nilage = "None" if nil < 0 else "(Some %d)" % ((nil + 999) // 1000)
+        return "CStress %d %d %s %d %d %s [%s]" % (c["timeout"], o.get("wall_ms", 0), b(bool(o.get("wedge"))), count if count >= 0 else 999999,
+                                                   o.get("left_goroutines", 0), nilage, ";".join("Oc %d %d" % (k, v) for k, v in o["hist"]))
     if "log" not in o:
         return None
     slow = any(op[0] in (10, 11) for op in c["ops"])
@@ -402,6 +463,16 @@ def _feat(c, o):
 
 
 def klass(c, o):
+    if c.get("k") == "birth":
+        return "birth-probe"
+    if c.get("k") == "stress":
+        if o.get("skipped"):
+            return "stress:not-run-after-two-wedges"
+        if o.get("wedge"):
+            return "stress:wedge"
+        if o.get("panic"):
+            return "stress:panic"
+        return "stress:%s%s" % ("sweepers=%d" % c["sweepers"], "+cut" if o.get("cut") else "")
     if o.get("hang"):
         return "hang"
     if o.get("skipped"):
@@ -418,6 +489,11 @@ def klass(c, o):
 
 
 def nontrivial(c, o):
+    if c.get("k") == "birth":
+        return False
+    if c.get("k") == "stress":
+        # the sweeps really ran next to the receive loop: at least one sweep per ten datagrams on average
+        return o.get("consumed", 0) >= 1000 and o.get("sweeps", 0) * 10 >= o.get("consumed", 0)
     return any(_feat(c, o)) or bool(o.get("overlaps"))
 
 
@@ -494,7 +570,12 @@ LEVEL_TEXT = ("Machine-checked Coq theorems over a hand-written labelled transit
               "call on udpIO / UDPConn / logger, ticker, clock): for every action sequence (= every interleaving of receive loop, reply loops "
               "and sweeper, every fault choice and every passage of time) the theorems of props/C07.v hold. The LTS is tied to /repo on every "
               "run by replaying ~70 recorded boundary logs of the real session manager (testing/synctest, fake clock, injected faults, "
-              "unsynchronised bursts) against it inside the kernel.")
+              "unsynchronised bursts) against it inside the kernel.  A second layer (model/C07_Birth.v) refines entry creation to the code's "
+              "granularity (lookup | newUDPSessionEntry | insert | Feed's Last store | initConn, with sweeps in between) and models m.mutex as a "
+              "Go RWMutex over the lock programs of udp.go's functions: visible entries are stamped, young sessions are never swept, the first "
+              "datagram reaches the hook, exactly one Close event, no deadlock / everybody finishes, nobody nests m.mutex; it is tied to /repo by "
+              "real-concurrency stress histories whose per-id outcomes must be outcomes of the exhaustively explored one-entry LTS and which must "
+              "never wedge.")
 LEVEL_NOTE = ("Trusted: Coq kernel + vm_compute; hand-written LTS (tie is sampled trace acceptance + regenerated Params); python/Go glue. "
               "initConn (closed check, hook, New, UDP(), socket install under connLock) is ONE action of the LTS taken when the dial returns; time and sweeps "
               "pass with the receive loop inside it (acceptor: quiescent at RInit), so a log in which the entry is closed inside the dial has no run. "
